@@ -422,6 +422,27 @@ def refute_strong_convexity(F, ctor, mu_node, seed):
     return ""
 
 
+def claim_sites(F, ctor, idx, depth=0):
+    """library expressions that end up as parameter `idx` of constructor `ctor` (through forwarding functions)"""
+    out = []
+    cls = strip_targs(ctor.cls)
+    for g in F.functions.values():
+        for x in g.nodes():
+            if x["k"] == "construct" and strip_targs(x.get("cls", "")) == cls and len(x.get("c", ())) == len(ctor.params):
+                a = x["c"][idx]
+                a0 = skip(a)
+                if a0 is not None and a0["k"] == "ref" and a0.get("dk") == "parm" and depth < 3:
+                    j = [i for i, p in enumerate(g.params) if p["d"] == a0["d"]]
+                    if j:
+                        # forwarding function: look at its callers
+                        for h in F.functions.values():
+                            for c in h.calls(lambda c: callee(c) == g.qn and len(args(c)) == len(g.params)):
+                                out.append((h, args(c)[j[0]]))
+                        continue
+                out.append((g, a))
+    return out
+
+
 def rule_strong_convexity(F, R, fns):
     n = 0
     for f in fns:
@@ -430,6 +451,19 @@ def rule_strong_convexity(F, R, fns):
         for c in f.calls(lambda x: callee(x) == "nano::function_t::strong_convexity" and len(args(x)) == 1):
             a = args(c)[0]
             if literal_value(a) == 0:
+                continue
+            a0 = skip(a)
+            if a0["k"] == "ref" and a0.get("dk") == "parm" and any(p["d"] == a0["d"] for p in f.params):
+                # pass-through wrapper (lambda_function_t): the claim is made by whoever constructs it; follow the constructor
+                # argument through forwarding factories to the library call sites
+                idx = [i for i, p in enumerate(f.params) if p["d"] == a0["d"]][0]
+                sites = claim_sites(F, f, idx)
+                for g, site_arg in sites:
+                    inst2 = "%s <- %s" % (f.cls.split("<")[0], g.qn[-50:])
+                    if literal_value(site_arg) == 0:
+                        R.ok("R-C06-6", inst2, g.loc(site_arg), "wrapped function built with strong convexity 0 (no claim)")
+                    else:
+                        R.incomplete("R-C06-6", inst2, g.loc(site_arg), "strong-convexity claim `%s` for a wrapped lambda has no recorded justification" % pp(site_arg)[:60])
                 continue
             n += 1
             inst = f.cls
